@@ -127,6 +127,9 @@ struct Result {
 class Session {
 public:
     Session(const Config &c, const Plan &p, const Options &o = Options());
+    // the parser is created from a configuration owned by the caller and shared with other sessions (C19); it is never
+    // modified or destroyed by the session
+    Session(htp_cfg_t *shared_cfg, const Config &c, const Plan &p, const Options &o = Options());
     ~Session();
     bool ok() const { return connp_ != nullptr; }
     const Call &req(const std::string &d) { return data_call('>', d.data(), d.size(), false); }
@@ -183,12 +186,14 @@ private:
     int tunnel_[2] = {0, 0};
     long long offered_[2] = {0, 0};
     int cur_call_ = -1; int cb_in_call_ = 0;
-    bool finished_ = false;
+    bool finished_ = false; bool shared_cfg_ = false;
     std::string tmpdir_;
     size_t hard_limit_ = 0;
 };
 
 Result run(const Scenario &s, const Options &o = Options());
+// a configuration with every parser and all of the driver's callbacks registered (what each Session builds for itself)
+htp_cfg_t *make_cfg(const Config &c, std::string *tmpdir_out);
 // Applies one op following the hand-over protocol; state is kept in HandOver.
 struct HandOver {
     std::string pending[2]; bool blocked[2] = {false, false}; size_t deferred_ops = 0, reoffers = 0;
